@@ -210,6 +210,10 @@ type Thread struct {
 type SyncOp struct {
 	kind    string
 	obj     interface{}
+	objs    []interface{} // when set: the operation touches several objects (select)
+	accs    []string      // per object access kind: r w enq deq add
+	acc     string        // access kind for obj ("" = w, or r when read is set)
+	class   int           // vMonC: commutative class (>0)
 	enabled func() bool
 	read    bool // read-mode op: independent of other read-mode ops on the same object
 	pos     string
@@ -444,14 +448,18 @@ func (e *Exec) concretise(x *Term, what string) int {
 		e.taken = append(e.taken, v)
 		e.kinds = append(e.kinds, "conc:"+what)
 		e.assume(e.ts.Eq(x, e.ts.BV(x.S.W, uint64(int64(v)))))
+		if e.pos == len(e.trail) && e.trailModel != nil {
+			e.model, e.trailModel = e.trailModel, nil
+		}
 		return v
 	}
 	// enumerate feasible values
 	var vals []int
+	models := map[int]map[string]uint64{}
 	block := e.ts.Bool(true)
 	for len(vals) <= e.eng.cfg.MaxConc {
 		e.queries++
-		r, m, why := e.ps.Check(e.pc, block, []*Term{x})
+		r, m, why := e.ps.Check(e.pc, block, e.modelVars(x))
 		if r == Unknown {
 			e.unknowns = append(e.unknowns, "concretise: "+why)
 			break
@@ -459,12 +467,11 @@ func (e *Exec) concretise(x *Term, what string) int {
 		if r == Unsat {
 			break
 		}
-		var bits uint64
-		for _, v := range m {
-			bits = v
-		}
+		xv, _ := e.evalUnder(x, m)
+		bits := xv.C
 		v := int(sext(bits, x.S.W))
 		vals = append(vals, v)
+		models[v] = m
 		block = e.ts.And(block, e.ts.Not(e.ts.Eq(x, e.ts.BV(x.S.W, bits))))
 	}
 	if len(vals) == 0 {
@@ -479,9 +486,10 @@ func (e *Exec) concretise(x *Term, what string) int {
 		copy(w, e.taken)
 		w[len(e.taken)] = v
 		e.newWork = append(e.newWork, w)
-		e.newWorkModels = append(e.newWorkModels, nil)
+		e.newWorkModels = append(e.newWorkModels, models[v])
 	}
 	e.model = nil
+	defer func(m map[string]uint64) { e.model = m }(models[vals[0]])
 	v := vals[0]
 	e.pos++
 	e.taken = append(e.taken, v)
@@ -614,15 +622,61 @@ func (e *Exec) resume(t *Thread) {
 	e.cur = prev
 }
 
-func independent(a, b *SyncOp) bool {
-	if a.obj == nil || b.obj == nil {
-		return false
+func (o *SyncOp) objects() ([]interface{}, []string) {
+	if o.objs != nil {
+		return o.objs, o.accs
 	}
-	if a.obj != b.obj {
+	a := o.acc
+	if a == "" {
+		a = "w"
+		if o.read {
+			a = "r"
+		}
+	}
+	return []interface{}{o.obj}, []string{a}
+}
+
+// accessesCommute: do two accesses to the same object commute in the current state?
+func accessesCommute(obj interface{}, a, b string) bool {
+	if a == "r" && b == "r" {
 		return true
 	}
-	return a.read && b.read
+	switch o := obj.(type) {
+	case *ChanObj:
+		// enqueue at the tail and dequeue at the head of a FIFO commute while it is neither empty nor full
+		if (a == "enq" && b == "deq") || (a == "deq" && b == "enq") {
+			return !o.closed && len(o.buf) >= 1 && len(o.buf) <= o.cap-1
+		}
+	case *wgKey:
+		// Add/Done are commutative updates as long as the counter cannot reach zero or go negative in between
+		if a == "add" && b == "add" {
+			return o.st.counter >= 2
+		}
+	}
+	return false
 }
+
+func independent(a, b *SyncOp) bool {
+	if (a.obj == nil && a.objs == nil) || (b.obj == nil && b.objs == nil) {
+		return false
+	}
+	if a.kind == "mon" && b.kind == "mon" {
+		return a.class > 0 && a.class == b.class
+	}
+	ao, ar := a.objects()
+	bo, br := b.objects()
+	for i, x := range ao {
+		for j, y := range bo {
+			if x == y && !accessesCommute(x, ar[i], br[j]) {
+				return false
+			}
+		}
+	}
+	return true
+}
+
+// wgKey identifies a WaitGroup as a dependency object (and gives access to its counter).
+type wgKey struct{ st *SyncState }
 
 // runPath executes the harness to completion under the decision trail.
 func (e *Exec) runPath(entry *ssa.Function) {
